@@ -80,9 +80,12 @@ func (r *Restoration) Commit() {
 	r.tx.Commit()
 
 	r.s.mu.Lock()
-	defer r.s.mu.Unlock()
-
 	r.s.db = r.db
+	r.s.mu.Unlock()
+
+	// RefreshTopic takes the publisher's lock. It must not be called with s.mu
+	// held: WatchList -> EventPublisher.Subscribe holds the publisher's lock while
+	// the snapshot handler (watchSnapshot) takes s.mu, so the two would deadlock.
 	r.s.pub.RefreshTopic(eventTopic)
 }
 
